@@ -1,8 +1,15 @@
 """C15 -- cache-group failover honours the preference order."""
 from engine import core
 
-INFO = {"outside": "wip", "assumptions": []}
-MANIFEST = {"text": "wip", "note": "wip"}
+INFO = {
+    "outside": 'more than 3 groups / 2 sockets; sequences of steps (covered only through the arbitrary pre-state)',
+    "assumptions": ['at most one group ESTABLISHED in the pre-state', "closed groups' sockets are not running"],
+}
+MANIFEST = {
+    "text": 'Bounded model checking of the real rtr_mgr.c: rtr_mgr_init / add_group / remove_group on arbitrary group arrays (rejections, ascending order, last group irremovable) and ONE socket state change delivered through the real callback chain (real rtr_change_socket_state and rtr_stop underneath, so nested SHUTDOWN callbacks happen) in an ARBITRARY manager state of 1..3 groups: newly ESTABLISHED => all sockets synced, less-preferred groups shut down and reported CLOSED, never a more-preferred one; ERROR with none ESTABLISHED => exactly the most-preferred closed group is started.',
+    "note": 'Bounded: <=3 groups x <=2 sockets, one step from an arbitrary state (which socket changes and the group sizes are enumerated per job, everything else symbolic). rtr_start is a recorder, tables are no-op stubs, qsort is a model.',
+    "technique": 'CBMC one-step-from-arbitrary-state on real rtr_mgr.c with real rtr_stop underneath',
+}
 MGR_SOURCES = ["rtrlib/rtr/rtr.c", "rtrlib/rtr/packets.c", "third-party/tommyds/tommylist.c"]
 MGR_STUBS = ["rtr_start: recorder", "pfx/spki table init/free/src_remove: no-op recorders", "tr_close/tr_free/pthread_cancel/"
              "pthread_join: no-ops", "qsort: insertion-sort model", "typed size-class allocator", "rwlock: sequential model"]
@@ -25,5 +32,9 @@ def jobs(tier):
     for n in (1, 2, 3):
         for g in range(n):
             for k in (0, 1):
-                J.append(mjob("step_ng%d_g%d_s%d" % (n, g, k), "harness_step", n, extra=["EV_G=%d" % g, "EV_K=%d" % k]))
+                for slen in (1, 2):
+                    if k >= slen:
+                        continue
+                    J.append(mjob("step_ng%d_g%d_s%d_len%d" % (n, g, k, slen), "harness_step", n,
+                                  extra=["EV_G=%d" % g, "EV_K=%d" % k, "SLEN=%d" % slen]))
     return J
